@@ -11,8 +11,8 @@ def directed(rnd):
     cases = []
     # more live requests than the pool capacity (128), then release and reuse
     cases.append({"hist": [{"k": "deep", "hold": True, "times": 140}, {"k": "release", "hold": False}] +
-                          [{"k": k, "hold": False} for k in ("flat", "miss", "deep2", "tail", "q", "flat", "deep", "miss")]})
-    kinds = ["deep", "deep2", "flat", "miss", "tail", "q"]
+                          [{"k": k, "hold": False} for k in ("flat", "miss", "deep2", "tail", "q", "flat", "deep", "miss", "smiss", "flat", "smiss", "q", "miss")]})
+    kinds = ["deep", "deep2", "flat", "miss", "tail", "q", "smiss"]
     for _ in range(30):
         h = []
         for _ in range(rnd.randint(8, 40)):
